@@ -132,6 +132,12 @@ def write_then_forget(ctx: Ctx, chk, loss_only: bool = False) -> None:
             continue
         for node, key in sb.removal_sites(ctx, f, "set_messages"):
             chk.instance(rule)
+            par_ = ctx.prog.parents.get(node)
+            if isinstance(node, ast.Call) and isinstance(par_, ast.Assign) and len(par_.targets) == 1 and isinstance(par_.targets[0], ast.Subscript) and sb.buffer_attr(par_.targets[0].value) == "set_messages" and key is not None and not isinstance(key, sb.HelperKey) and norm(par_.targets[0].slice) == norm(key):
+                # `D[k] = D.pop(k, ...)`: the entry taken out is put back under the same key in the same statement
+                # (moved to the end of the dict): nothing parked vanishes - what happens to the *new* message is C07 / C12
+                chk.ok(rule, fkey(f, node), "the removed entry is stored again under the same key in the same statement", ctx.loc(f, node), sample=False)
+                continue
             chk.refute(rule, fkey(f, node), f"{f.qualname} removes from set_messages outside the flush: parked commands can vanish without being written", ctx.loc(f, node))
 
 
